@@ -154,7 +154,7 @@ func sccOf(b *ssa.BasicBlock) map[*ssa.BasicBlock]bool {
 
 var ruleYield = &Rule{
 	ID:    "R-YIELD",
-	Doc:   "eval tests the stop flag and yields before dispatching; every loop of the evaluator that runs user code passes, on each iteration, through a call that must reach eval; an error coming out of evaluation (ErrStopped included) is returned on every path where it may be non-nil and nothing is evaluated afterwards; the browser event loops test the stop flag each iteration",
+	Doc:   "eval tests the stop flag and yields before dispatching; every loop of the evaluator that runs user code passes, on each iteration, through a call that must reach eval; a built-in's implementation is called only behind a stop test that follows the last evaluation in its function, and a helper that neither evaluates nor tests is guarded only if all its call sites are; an error coming out of evaluation (ErrStopped included) is returned on every path where it may be non-nil (as the first argument where cmp.Or chooses) and nothing is evaluated afterwards; the browser event loops test the stop flag each iteration",
 	Floor: 30,
 	Run:   runYield,
 }
